@@ -28,12 +28,15 @@ func runC04(o opts) error {
 		scns = l
 	} else {
 		rng := rand.New(rand.NewSource(o.seed))
-		var cfgs, crashCfgs []int
+		var cfgs, crashCfgs, envCfgs []int
 		if o.tier == "thorough" {
 			for n := 0; n < 1024; n++ {
 				cfgs = append(cfgs, n)
 				if n%4 == int(o.seed)%4 {
 					crashCfgs = append(crashCfgs, n)
+				}
+				if n < 256 {
+					envCfgs = append(envCfgs, n)
 				}
 			}
 		} else {
@@ -45,9 +48,15 @@ func runC04(o opts) error {
 			for len(crashCfgs) < 10 {
 				crashCfgs = append(crashCfgs, rng.Intn(1024))
 			}
+			// Unicode core alone, with explicit width, everything, nothing
+			envCfgs = []int{2, 2 | 128, 255, 0, 127, 2 | 512}
+			for len(envCfgs) < 10 {
+				envCfgs = append(envCfgs, rng.Intn(1024))
+			}
 		}
 		scns = append(scns, c04.Gen(cfgs, false)...)
 		scns = append(scns, c04.Gen(crashCfgs, true)...)
+		scns = append(scns, c04.GenEnv(envCfgs)...)
 	}
 	sink, err := trace.NewSink(o.out, o.shards)
 	if err != nil {
